@@ -92,7 +92,7 @@ CHECKS['C13'] = dict(
     technique='CBMC function contracts on extracted real code and fragments (dfcc), SAT back end', design='4.9')
 CHECKS['C18'] = dict(
     text='Deductive proof (CBMC contracts) on extracted real code: PolyglotBook::getMove is total for all 2^16 codes (squares on the board, promotion piece of the mover), getPGMove/getMove inverse incl. king-takes-rook castling, '
-         'serialize/deSerialize byte layout, the binary search of Book::getBookEntries (fragment, loop contract: every index read is inside the file and the search terminates for any file contents), getWeight range, '
+         'serialize/deSerialize byte layout, the binary search of Book::getBookEntries (fragment, loop contract: every index read is inside the file, the search terminates for any file contents, and the index it returns is a key boundary: the entry before it has a smaller key, the entry at it does not), getWeight range, '
          'and, as a BOUNDED stand-in (at most 4 book entries and 16 legal moves; reported separately in the evidence and not counted as proved), the selection part of Book::getBookMove (fragment): the result is the empty move or a stored move that was found in the legal move list, namely the entry whose weight window [cum(i-1), cum(i)) contains the random draw (so every entry of positive weight can be returned and none of weight 0); the "should never get here" assert is unreachable.',
     note=TRUST + 'Assumed contracts: file read lambda, MoveGen legal list (C01), Random::nextInt in [0,n), ::sqrt non-negative with square <= x+1, getWeight deterministic (in the selection proof). Data bounds of the selection proof: 4 book entries, 16 legal moves. '
          'Not decided: std::fstream behaviour, built-in book map, the distribution of Random::nextInt.',
